@@ -243,9 +243,41 @@ type updateJoinIter struct {
 	updaters    map[string]int
 	joinSchema  Schema
 	accumulator *updateJoinRowHandler
+	cache       KeyValueCache
 }
 
-func (u *updateJoinIter) Next(ctx *Context) (Row, error) { return u.src.Next(ctx) }
+type KeyValueCache interface {
+	Put(uint64, interface{}) error
+	Get(uint64) (interface{}, error)
+}
+
+var errKeyNotFound = errors.New("not found")
+
+func (u *updateJoinIter) Next(ctx *Context) (Row, error) {
+	for {
+		row, err := u.src.Next(ctx)
+		if err != nil {
+			return nil, err
+		}
+		for range u.updaters {
+			_, err = u.cache.Get(uint64(len(row)))
+			if err == errKeyNotFound {
+				u.cache.Put(uint64(len(row)), struct{}{})
+				if u.accumulator != nil {
+					u.accumulator.handleRowMatched()
+				}
+				continue
+			} else if err != nil {
+				return nil, err
+			}
+			// DEFECT (N5): a row that was seen before is counted as matched again
+			if u.accumulator != nil {
+				u.accumulator.handleRowMatched()
+			}
+		}
+		return row, nil
+	}
+}
 func (u *updateJoinIter) Close(ctx *Context) error       { return nil }
 
 type deleteIter struct{ childIter RowIter }
